@@ -207,6 +207,13 @@ func (en *Engine) external(st *State, fr *Frame, x *ssa.Call, name string, calle
 			if i == 0 && x.Common().IsInvoke() && pluginRecv(a) {
 				continue
 			}
+			if i == 0 && strings.HasPrefix(name, "dynamic:") && pluginHook(a) {
+				continue
+			}
+			if cv, isC := a.(*CallV); i == 0 && isC && strings.HasPrefix(name, "dynamic:") && cv.Fn != nil && en.P.inModule(cv.Fn) && moduleTreePure(en.P, cv.Fn, map[*ssa.Function]bool{}) {
+				// a closure handed back by a module function that (closures included) changes no tree: `done := sp.startPhase(..)`
+				continue
+			}
 			if a == nil || mayPointTo(a.Type()) {
 				st.treeEpoch++
 				break
@@ -248,7 +255,10 @@ func (en *Engine) external(st *State, fr *Frame, x *ssa.Call, name string, calle
 		}
 	default:
 		en.Unmodelled[name]++
-		for _, a := range args {
+		for i, a := range args {
+			if i == 0 && strings.HasPrefix(name, "dynamic:") && pluginHook(a) {
+				continue // the callback itself: not the provider it was read from
+			}
 			en.havoc(st, a)
 		}
 	}
@@ -721,6 +731,25 @@ func freshSliceFrom(v Val) (*AllocV, int64, bool) {
 }
 
 // pluginRecv: an interface value loaded from a field of a parameter object (sp.Observer).
+// pluginHook: a function value loaded from a field of a parameter — a callback the application plugged in before the
+// call. Like the receiver of a plugged-in interface it is application code: what it does to objects it captured is the
+// application's business; it reaches the library's data only through the other arguments it is handed.
+func pluginHook(v Val) bool {
+	l, ok := v.(*LoadV)
+	if !ok || l.Type() == nil {
+		return false
+	}
+	if _, isFn := l.Type().Underlying().(*types.Signature); !isFn {
+		return false
+	}
+	fa, ok := l.Addr.(*FieldAddrV)
+	if !ok {
+		return false
+	}
+	_, isP := fa.X.(*ParamV)
+	return isP
+}
+
 func pluginRecv(v Val) bool {
 	l, ok := v.(*LoadV)
 	if !ok || !isIfaceType(l.Type()) {
